@@ -22,15 +22,16 @@ impl Parsable for Glue {
                         super::dimen::scan_and_apply_units(
                             input,
                             first_token,
-                            i.abs(),
+                            i.saturating_abs(),
                             Scaled::ZERO,
                             None,
                         )? * negative
                             * i.signum()
                     }
-                    InternalNumber::Dimen(d) => d * negative,
+                    // The value may be i32::MIN (after \advance wrapped around), which can't be negated.
+                    InternalNumber::Dimen(d) => d.wrapping_mul(negative),
                     InternalNumber::Glue(g) => {
-                        return Ok(g * negative);
+                        return Ok(g.wrapping_mul(negative));
                     }
                 }
             }
